@@ -454,6 +454,53 @@ def inst_map_overlap(blocks, kind, what):
                     cost=6 * max(blocks), wall_s=900)
 
 
+def _sum_rows(b):
+    """a block function that drops axis 0: column sums of the (haloed) block"""
+    return b.sum(axis=0)
+
+
+_sum_rows.__symx_kernel__ = True
+
+
+def inst_map_overlap_drop(kind):
+    """map_overlap(f, x, depth={1: d}, boundary={1: kind}, drop_axis=0) with f = column sums: the direct path (overlap ->
+    map_blocks(drop_axis) -> trim), in which depth and boundary are re-indexed onto the surviving axes -- the halo added
+    along axis 1 is trimmed off again, so the result is the column sums of x, on x's column chunks"""
+    def body(E):
+        from . import catalog
+
+        w = _ov_world(E)
+        p = catalog.source(w, E, "x", (1, 2))
+        X = p.ref
+        d = E.int("depth", 1)
+        E.assume(d <= X.shape[1])
+        coll = w.fn(catalog.NC, "new_collection")(p.node)
+        out = w.fn("dask_array._overlap", "map_overlap")(_sum_rows, coll, depth={1: d}, boundary={1: kind}, drop_axis=0, dtype="f8",
+                                                         meta=np.empty((0,)))
+        ref = X.reduce_axis(0, "add")
+        E.ensure("advertised-shape", EQ(tuple(out.shape), (X.shape[1],)))
+        for stage in ("materialized", "materialized_off"):
+            m = catalog.stages(E, w, out.expr, {stage})[stage]
+            whole, r = run_blocks(E, catalog._layers(m), m._name, out.expr.chunks, label=stage, kernels=dict(_sum_rows=_sum_rows))
+            same_array(E, whole, ref, label=f"{stage}-column-sums", skolem=f"p{stage[-1]}")
+
+    def api(values):
+        import dask_array as da
+
+        rows, cs, d = values["x0_0"], (values["x1_0"], values["x1_1"]), values["depth"]
+        if rows * sum(cs) > 20000:
+            return dict(ok=False, detail="outside API replay range")
+        A = np.arange(rows * sum(cs), dtype="f8").reshape(rows, sum(cs)) ** 2
+        x = da.from_array(A, chunks=((rows,), cs))
+        y = da.map_overlap(lambda b: b.sum(axis=0), x, depth={1: d}, boundary={1: kind}, drop_axis=0, dtype="f8", meta=np.empty((0,)))
+        got = y.compute(scheduler="sync")
+        return dict(ok=bool(got.shape == (sum(cs),) and np.array_equal(got, A.sum(axis=0))), detail=f"rows={rows} column chunks={cs} depth={d} "
+                                                                                        f"boundary={{1: {kind!r}}}: shape {got.shape}")
+
+    return Instance(f"map_overlap_drop_axis[boundary={kind}]", body, dict(boundary=kind), unit="map_overlap (_map_overlap_direct) + trim_internal",
+                    api_replay=api, cost=8, wall_s=900)
+
+
 def inst_cum(cls, blocks, axis):
     def body(E):
         import dask_array.reductions._cumulative as CMm
@@ -594,6 +641,8 @@ def inst_map_overlap_sliced(blocks, kind, depth=None, start=None, hi=None, withi
 def instances(tier):
     q = tier == "quick"
     out = _program_instances(tier)
+    out.append(inst_map_overlap_drop("periodic"))
+    out.append(inst_map_overlap_drop("none"))
     # (reflect: the pushed window's mirrored halo makes z3 run past 900 s -- not included, stated)
     for kind in ("periodic", "none"):
         out.append(inst_map_overlap_sliced((1,), kind, depth=2))
